@@ -1,7 +1,11 @@
 """property -> correspondence suites"""
-from .suites import pure, diff, walk, sync, proto, faults
+from .suites import pure, diff, walk, sync, proto, faults, metaonly
 
 PROPS = {
+    "C19": {
+        "suites": [metaonly.MetaOnly],
+        "assumptions": ["the listing file is decoded by the generic protobuf runtime in the harness"],
+    },
     "C04": {
         "suites": [faults.FaultSend, faults.FaultSync],
         "assumptions": ["'bounded time' = returns within 3 s of wall clock after the harness tears the stream down; environment calls (reads, callbacks) return"],
